@@ -230,6 +230,52 @@ fn main() {
         sink.merge(sw);
         sink.bump("wide-catalogue records", nw as u64);
     }
+    // DTLS datagrams over the cross product of the record header fields: every ordered pair (and triples through a fixed
+    // first record) of records with type x version x epoch x sequence number (0, 1, 2^32-1, 2^32, 2^47, 2^48-1): nothing in
+    // one record's header decides about the next record
+    {
+        let d_small = cat::dtls_hs(14, 1, None, 0, |_| {}).buf;
+        let mut hdrs: Vec<Vec<u8>> = Vec::new();
+        for ty in [0x14u8, 0x15, 0x16] {
+            for ver in [0xfefdu16, 0xfeff, 0xfefc, 0x0303] {
+                for epoch in [0u16, 1, 0xffff] {
+                    for seq in [0u64, 1, 0xffff_ffff, 0x1_0000_0000, 1 << 47, (1 << 48) - 1] {
+                        hdrs.push(
+                            cat::dtls_record(ty, ver, epoch, seq, |w| {
+                                match ty {
+                                    0x14 => {
+                                        w.u8(1);
+                                    }
+                                    0x15 => {
+                                        w.u8(1).u8(0);
+                                    }
+                                    _ => {
+                                        w.bytes(&d_small);
+                                    }
+                                }
+                            })
+                            .buf,
+                        );
+                    }
+                }
+            }
+        }
+        let n = hdrs.len();
+        let sd = par_run(run.threads, n, |a, sink| {
+            for b in 0..n {
+                let mut buf = hdrs[a].clone();
+                buf.extend_from_slice(&hdrs[b]);
+                check(&buf, sink);
+                if (a + b) % 7 == 0 {
+                    let mut t = hdrs[(a * 31 + b) % n].clone();
+                    t.extend_from_slice(&buf);
+                    check(&t, sink);
+                }
+            }
+        });
+        sink.merge(sd);
+        sink.bump("DTLS header-field record pairs", (n * n) as u64);
+    }
     // a hello carrying each known / semantic extension (max_fragment_length codes, record_size_limit, supported_versions, ...)
     // followed by a valid record of each size class: nothing an earlier record says limits what a later record may be
     {
